@@ -52,16 +52,19 @@ def run(tier, seed):
         "through merge_sorted_runs/merge_sorted_chunks/rows_to_chunks/concat_parallel_results/merge_distinct_results, generate_morsels "
         "(sizes 0, 1, below MIN_MORSEL_SIZE, around the input size, usize::MAX), MergeableAccumulator over random merge trees, every "
         "push operator chunk by chunk over random chunkings (with empty chunks) against its pull twin and the list specification, "
+        "the same operators fed with chunks that carry a selection vector (prefix, suffix, random subsets, empty; 1-3 chunks) against "
+        "the model, the specification on the selected rows and the pull twins, "
         "Pipeline chains of 1-3 operators, harness-played schedules (1..16 workers, any assignment and publication order), the real "
-        "ParallelPipeline (1..16 workers, all four morsel sizes, chunk sizes 1..5000, vector and chunk sources), ExternalSort / "
-        "SpillableSortPushOperator from 'every row its own run' to 'never spills', PartitionedState with random spills, spilling GROUP BY; "
+        "ParallelPipeline (1..16 workers, all four morsel sizes, chunk sizes 1..5000, vector, chunk and triple-scan sources, chains with an inner sort), ExternalSort / "
+        "SpillableSortPushOperator from 'every row its own run' to 'never spills', PartitionedState with random spills, GROUP BY on 0-2 columns "
+        "with COUNT(*)/COUNT/SUM/MIN/MAX/AVG/FIRST in memory and spilling (thresholds 0..1000) against the model and each other; "
         "a case is non-trivial when the input has duplicate keys and at least 2 runs/morsels/chunks/workers; distinct = distinct (kind,input)")
     chk.coverage["samples"] = [{"kind": c["k"], "input": c["in"][:300], "impl": c["impl"][:300]} for c in cases[40:2200:360]]
     chk.coverage["trusted_base"] = TRUSTED
     chk.assumptions = [
         "sort keys are same-typed per column (the comparators answer Equal across kinds and are then no preorder); NaN, -0.0, non-scalar values not modelled",
         "f64 sums of the accumulators are exact on the generated inputs (integers, partial sums below 2^53); float rounding under re-association is out of scope",
-        "chunks are flat (no selection vector) and hold at most 65535 rows (above that: finding C17-K3)",
+        "chunks hold at most 65535 rows (above that: finding C17-K3); selection vectors on input chunks are ascending and in range (as the pull operators produce them)",
         "the 64-bit SipHash values used by DISTINCT / GROUP BY / merge_distinct_results are inputs of the model; their injectivity on the "
         "values of a run is checked by the harness on every case (the NULL/FALSE collision is finding C17-K8; any other collision makes the case 'na')",
         "OS thread schedules of ParallelPipeline::execute are not controlled (quick and thorough); results are compared as bags / after the real merge",
